@@ -153,6 +153,8 @@ class Grid(object):
         self.urandom_n = 0
         self.urandom_log = []
         os.urandom = self._urandom
+        import random
+        random.seed(self.ch.u64("urandom", "python-random"))     # BackoffAgent jitter etc.
         ctp._DISABLED = True
 
     # seams -----------------------------------------------------------------------
